@@ -64,18 +64,20 @@ pub fn main(args: &Args) -> i32 {
             }
             t.line(&Obj::new().str("ev", "mask").int("mask", i64::from(mask)).raw("reported", &format!("[{}]", rep.join(","))).done());
             let _ = verif::take_isa_counts();
-            let eng = DefaultEngine::new();
+            // both public ways of constructing the engine: new() and the Default impl (generic `E: Default` code)
+            let s = seed + round as u64 * 977;
+            for (via, sizes) in [("", &[(16usize, 16usize), (64, 37), (8, 3), (32, 5), (128, 100), (2, 1)][..]), ("dflt-", &[(16, 16), (32, 5)][..])] {
+            let eng = if via.is_empty() { DefaultEngine::new() } else { DefaultEngine::default() };
             t.line(&Obj::new().str("ev", "construct").raw("isas", &counters_json(verif::take_isa_counts())).done());
             // primitives of the constructed engine (operation ids carry the round: data differs per round, not per mask)
-            let s = seed + round as u64 * 977;
-            for (size, trunc) in [(16usize, 16usize), (64, 37), (8, 3), (32, 5), (128, 100), (2, 1)] {
-                call_event(&mut t, &format!("fft{size}/{round}"), &["fft"], || {
+            for (size, trunc) in sizes.iter().copied() {
+                call_event(&mut t, &format!("{via}fft{size}/{round}"), &["fft"], || {
                     let mut d = data(s, size as u64, size * 2);
                     let mut sh = ShardsRefMut::new(size, 2, &mut d);
                     eng.fft(&mut sh, 0, size, trunc, size);
                     flat(&d[..trunc * 2])
                 });
-                call_event(&mut t, &format!("ifft{size}/{round}"), &["ifft"], || {
+                call_event(&mut t, &format!("{via}ifft{size}/{round}"), &["ifft"], || {
                     let mut d = data(s, 100 + size as u64, size * 2);
                     for b in d[trunc * 2..].iter_mut() {
                         *b = [0u8; 64];
@@ -84,7 +86,7 @@ pub fn main(args: &Args) -> i32 {
                     eng.ifft(&mut sh, 0, size, trunc, 0);
                     flat(&d)
                 });
-                call_event(&mut t, &format!("ifftd{size}/{round}"), &["ifft"], || {
+                call_event(&mut t, &format!("{via}ifftd{size}/{round}"), &["ifft"], || {
                     // non-zero skew offset: the multiplying branches of the last layers
                     let mut d = data(s, 200 + size as u64, size * 2);
                     for b in d[trunc * 2..].iter_mut() {
@@ -95,12 +97,13 @@ pub fn main(args: &Args) -> i32 {
                     flat(&d)
                 });
             }
-            call_event(&mut t, &format!("mul/{round}"), &["mul"], || {
+            call_event(&mut t, &format!("{via}mul/{round}"), &["mul"], || {
                 let mut d = data(s, 7, 5);
                 eng.mul(&mut d, 12345);
                 eng.mul(&mut d[1..3], 65535);
                 flat(&d)
             });
+            }
             call_event(&mut t, &format!("evalpoly/{round}"), &["eval_poly"], || {
                 let mut er = Box::new([0u16; GF_ORDER]);
                 for m in [1usize, 5, 77, 300, 4000] {
@@ -139,6 +142,14 @@ pub fn main(args: &Args) -> i32 {
                     let res = d.decode().unwrap();
                     let v: Vec<Vec<u8>> = res.restored_original_iter().map(|(_, s)| s.to_vec()).collect();
                     v.concat()
+                });
+                call_event(&mut t, &format!("enc_dflt_{k}_{r}/{round}"), &["fft", "ifft"], || {
+                    let mut e = DefaultRateEncoder::new(k, r, sb, DefaultEngine::default(), None).unwrap();
+                    for o in &orig {
+                        e.add_original_shard(o).unwrap();
+                    }
+                    let res = e.encode().unwrap();
+                    res.recovery_iter().map(<[u8]>::to_vec).collect::<Vec<_>>().concat()
                 });
                 call_event(&mut t, &format!("rs_enc_{k}_{r}/{round}"), &["fft", "ifft"], || {
                     let mut e = ReedSolomonEncoder::new(k, r, sb).unwrap();
